@@ -57,7 +57,15 @@ def _task(args):
 
         def fn(e):
             ctx = SymCtx(e, L)
-            r = H.run(ctx, cfg)
+            try:
+                r = H.run(ctx, cfg)
+            except Exception as ex:
+                where = _raised_in_repo(ex)
+                if where is None or getattr(H, "EXCEPTIONS_ARE_VIOLATIONS", True) is False:
+                    raise
+                e.latched = None
+                e.fail("unexpected %s raised by the code under test" % type(ex).__name__,
+                       key="unexpected %s at %s" % (type(ex).__name__, where), detail=str(ex)[:200])
             e.reachable()
             for a in e.assumptions:
                 assumptions.add(a)
@@ -83,6 +91,21 @@ def _task(args):
     return out
 
 
+def _raised_in_repo(ex):
+    """module:function of the innermost frame if the exception was raised by /repo code (not by a model or the harness)"""
+    tb = ex.__traceback__
+    last = None
+    while tb is not None:
+        last = tb
+        tb = tb.tb_next
+    if last is None:
+        return None
+    fn = last.tb_frame.f_code.co_filename
+    if fn.startswith(loader_mod.REPO + "/"):
+        return "%s:%s" % (os.path.relpath(fn, loader_mod.REPO), last.tb_frame.f_code.co_name)
+    return None
+
+
 def merge_stats(a, b):
     if a is None:
         return dict(b)
@@ -102,6 +125,12 @@ def replay_real(H, cfg, model):
         return True, lab, key, det
     except E.PathAbort:
         return False, None, None, "assumption not met by the model values"
+    except Exception as ex:
+        where = _raised_in_repo(ex)
+        if where is None:
+            raise
+        return True, "unexpected %s raised by the code under test" % type(ex).__name__, \
+            "unexpected %s at %s" % (type(ex).__name__, where), str(ex)[:200]
     finally:
         ctx.cleanup()
 
